@@ -222,6 +222,24 @@ func (res vC09DemuxRes) obs() vSx {
 	return vOk(vL(vI(int(res.ver)), vBool(res.hv), vBool(res.ha)), vLs(ts), vI(res.where), vI(res.end))
 }
 
+// a tag body in a case: literal bytes, or (n seed) = n pattern bytes (keeps big cases short)
+func vC09Pattern(n int, seed int) []byte {
+	b := make([]byte, n)
+	for i := range b {
+		b[i] = byte(seed + 7*i + i/256)
+	}
+	return b
+}
+
+func vC09Body(s vSx) []byte {
+	if s.isList() && len(s.l) == 2 {
+		return vC09Pattern(s.l[0].int(), s.l[1].int())
+	}
+	return s.b
+}
+
+func vC09PatBody(n, seed int) vSx { return vL(vI(n), vI(seed)) }
+
 func vC09Ints(s vSx) []int {
 	out := make([]int, 0, len(s.l))
 	for _, x := range s.l {
@@ -261,11 +279,12 @@ func vC09Run(k *vKit, c vSx) (obs vSx, fo, fd string, nontrivial bool) {
 		hv, ha := c.l[1].i64() != 0, c.l[2].i64() != 0
 		var tags []vC09Tag
 		for _, t := range c.l[3].l {
-			tags = append(tags, vC09Tag{uint8(t.l[0].u64()), uint32(t.l[1].u64()), t.l[2].b})
-			if t.l[1].u64() >= 1<<24 || len(t.l[2].b) >= 1<<16 {
+			body := vC09Body(t.l[2])
+			tags = append(tags, vC09Tag{uint8(t.l[0].u64()), uint32(t.l[1].u64()), body})
+			if t.l[1].u64() >= 1<<24 || len(body) >= 1<<16 {
 				nontrivial = true
 			}
-			k.count("body-size", vSizeBucket(len(t.l[2].b)))
+			k.count("body-size", vSizeBucket(len(body)))
 		}
 		sizes := vC09Ints(c.l[4])
 		cut, fault := c.l[5].int(), c.l[6].int()
@@ -463,7 +482,11 @@ func vC09GenTags(r *vRng, k *vKit) []vSx {
 			ts = uint64(r.intn(1 << 20))
 		}
 		typ := r.pickInt(8, 9, 18, 8, 9, 0, 255, r.intn(256))
-		tags = append(tags, vL(vI(typ), vU(ts), vB(r.bytes(size))))
+		if size >= 1000 {
+			tags = append(tags, vL(vI(typ), vU(ts), vC09PatBody(size, r.intn(256))))
+		} else {
+			tags = append(tags, vL(vI(typ), vU(ts), vB(r.bytes(size))))
+		}
 	}
 	return tags
 }
@@ -492,7 +515,7 @@ func vC09GenSizes(r *vRng) []vSx {
 func vC09WireLen(tags []vSx) int {
 	n := 13
 	for _, t := range tags {
-		n += 15 + len(t.l[2].b)
+		n += 15 + len(vC09Body(t.l[2]))
 	}
 	return n
 }
@@ -521,7 +544,7 @@ func vC09Gen(r *vRng, k *vKit) vSx {
 		tags := vC09GenTags(r, k)
 		var ts []vC09Tag
 		for _, t := range tags {
-			b := t.l[2].b
+			b := vC09Body(t.l[2])
 			if len(b) > 2000 {
 				b = b[:2000]
 			}
@@ -589,7 +612,7 @@ func vC09Boundary(thorough bool) []vSx {
 	bigs := []int{65535, 65536}
 	for i, sz := range bigs {
 		for kind := 1; kind <= 2; kind++ {
-			tags := []vSx{vL(vI(9), vU(1<<32-1), vB(pat(sz))), vL(vI(8), vU(1<<24), vB(pat(3)))}
+			tags := []vSx{vL(vI(9), vU(1<<32-1), vC09PatBody(sz, 3+i)), vL(vI(8), vU(1<<24), vB(pat(3)))}
 			seg := []vSx{}
 			if (i+kind)%2 == 0 {
 				seg = []vSx{vI(1)}
@@ -598,10 +621,10 @@ func vC09Boundary(thorough bool) []vSx {
 		}
 	}
 	if thorough {
-		for kind := 1; kind <= 2; kind++ {
-			tags := []vSx{vL(vI(9), vU(1<<32-1), vB(pat(1<<24-1))), vL(vI(8), vU(5), vB(pat(2)))}
-			out = append(out, vL(vI(kind), vI(1), vI(0), vLs(tags), vLs([]vSx{vI(4096)}), vI(-1), vI(-1)))
-		}
+		// the largest body a tag can carry; library-written only: its bytes are compared with the
+		// reference writer's by the layout oracle, so a reference-written twin would be the same file
+		tags := []vSx{vL(vI(9), vU(1<<32-1), vC09PatBody(1<<24-1, 77)), vL(vI(8), vU(5), vB(pat(2)))}
+		out = append(out, vL(vI(1), vI(1), vI(0), vLs(tags), vLs([]vSx{vI(4096)}), vI(-1), vI(-1)))
 	}
 	return out
 }
@@ -626,7 +649,7 @@ func TestVerifC09(t *testing.T) {
 	for _, c := range vC09Boundary(k.thorough()) {
 		runOne(c)
 	}
-	n := k.N(600, 6000)
+	n := k.N(600, 4000)
 	for i := 0; i < n; i++ {
 		runOne(vC09Gen(k.rnd, k))
 	}
